@@ -234,6 +234,32 @@ pub fn exec_case(comp: &Comp, case: &Case, clean: &BitModel, clean_bytes: &[u8],
     }
 }
 
+/// The operation indices at which the sink is made to fail: all of them for a write of up to 6000 sink
+/// operations; for larger components (a 96 KB frame is ~10^5 operations on a byte-wise sink) the first and
+/// last 48, 160 evenly spread ones and the neighbourhood of every 8192nd operation (internal piece
+/// boundaries such as 64 KiB land there).
+pub fn fault_positions(n: usize) -> Vec<usize> {
+    if n <= 6000 {
+        return (0..n).collect();
+    }
+    let mut v: Vec<usize> = (0..48).chain(n - 48..n).collect();
+    for i in 0..160 {
+        v.push(i * n / 160);
+    }
+    let mut b = 8192;
+    while b < n {
+        for d in [b - 1, b, b + 1, b + 40] {
+            if d < n {
+                v.push(d);
+            }
+        }
+        b += 8192;
+    }
+    v.sort_unstable();
+    v.dedup();
+    v
+}
+
 /// Runs `f` on a freshly spawned thread: reference values (the clean bitstream, operation counts) must not
 /// depend on what earlier failing writes may have left behind on the calling thread.
 fn on_fresh_thread<R: Send>(f: impl FnOnce() -> R + Send) -> R {
@@ -256,7 +282,7 @@ pub fn run(ctx: &crate::RunCtx) -> (Summary, Vec<Violation>) {
     let mut sum = Summary::new(
         "corpus item = small emitted stream (every subframe kind / stereo mode / width); its components (stream, stream with precomputed frames, \
          STREAMINFO, unknown metadata, each frame plain and precomputed, frame headers, subframes, residuals) are written to a user sink that fails at \
-         operation k, for EVERY k of the clean write, in 6 flavours (required-only / all-overridden / required-only-with-a-zero-sized-error-type sink x fails-from-k / fails-only-at-k). \
+         operation k, for EVERY k of the clean write (components of more than 6000 sink operations: first/last 48, 160 spread, and around every 8192nd), in 6 flavours (required-only / all-overridden / required-only-with-a-zero-sized-error-type sink x fails-from-k / fails-only-at-k). \
          A case = (component, flavour, k); all are distinct; non-trivial = the failure hit a write with at least one accepted operation before it (k > 0).",
     );
     sum.exhaustive = Some(true);
@@ -280,8 +306,14 @@ pub fn run(ctx: &crate::RunCtx) -> (Summary, Vec<Violation>) {
             }
             for sink in ["required", "overridden", "required_unit_error"] {
                 let n = on_fresh_thread(|| count_ops(&comp, sink != "overridden"));
+                if n > 6000 {
+                    sum.exhaustive = Some(false);
+                    if ctx.child == 0 {
+                        *sum.probes.entry("large_component_fault_positions_sampled".into()).or_default() += 1;
+                    }
+                }
                 for sticky in [true, false] {
-                    for k in 0..n {
+                    for k in fault_positions(n) {
                         n_case += 1;
                         if n_case % ctx.nchild != ctx.child {
                             continue;
@@ -398,7 +430,7 @@ pub fn minimise(case: &serde_json::Value, class: &str, site: &str) -> serde_json
         }
         let clean = BitModel::from_bytes(&cb, nbits);
         let n = on_fresh_thread(|| count_ops(comp, c0.sink != "overridden"));
-        for k in 0..n {
+        for k in fault_positions(n) {
             let c = Case {
                 component: name.clone(),
                 k,
